@@ -339,7 +339,7 @@ func faultSig(v string, c FaultCase, phase string) string {
 // FaultCheck is the main of C06.
 func FaultCheck() {
 	r := ev.New("C06", "fault_enumeration")
-	r.SetBudget(100*time.Second, 25*time.Minute)
+	r.SetBudget(200*time.Second, 25*time.Minute)
 	core.VerifQuiet()
 	phaseOf := func(key string) string { return key[strings.LastIndex(key, ".")+1:] }
 	if r.ReplayPath != "" {
